@@ -196,6 +196,8 @@ func (r *v12FSMRun) step(id int, step map[string]interface{}) v12Event {
 				}
 			}
 			args["order"] = order
+			// (announcements held at the gate - made outside the apply - would block the stop)
+			r.gate.releaseAll()
 			v06Close(r.srv[v])
 			r.srv[v] = v06NewServer(v, r.dirs[v])
 			if err := r.srv[v].Restore(io.NopCloser(bytes.NewReader(sink.Bytes()))); err != nil {
